@@ -387,6 +387,7 @@ var vtransforms = []vtransform{
 			return l
 		})
 	}},
+	{"hyphen-split-dense", "C06", false, func(r *vrand, in []byte) []byte { return vdenseHyphen(in, 2+r.intn(2)) }},
 	{"spelling", "C06", true, func(r *vrand, in []byte) []byte {
 		s := string(in)
 		pairs := [][2]string{{"license", "licence"}, {"License", "Licence"}, {"while", "whilst"}, {"organization", "organisation"}, {"authorized", "authorised"}, {"fulfill", "fulfil"}, {"center", "centre"}, {"favor", "favour"}, {"recognize", "recognise"}, {"program", "programme"}}
@@ -404,6 +405,23 @@ var vtransforms = []vtransform{
 		}
 		return []byte(strings.ReplaceAll(s, "https://", "http://"))
 	}},
+}
+
+// vdenseHyphen splits every long alphabetic word that is not the first of its line after h letters
+// with a hyphen and a line break: wherever a read-buffer boundary falls, a joined word is near.
+func vdenseHyphen(in []byte, h int) []byte {
+	return vmapLines(in, func(i int, l string) string {
+		if visNotice(l) {
+			return l
+		}
+		ws := strings.Split(l, " ")
+		for k := 1; k < len(ws); k++ {
+			if w := ws[k]; len(w) >= 6 && visAlpha(w) {
+				ws[k] = w[:h] + "-\n" + w[h:]
+			}
+		}
+		return strings.Join(ws, " ")
+	})
 }
 
 // visNotice: the line on its own is a copyright notice / date for the tokenizer
@@ -614,7 +632,7 @@ func vclassifyMeta(c *Classifier, tr string, in, data []byte, base, got Results,
 		}
 		return ""
 	}
-	if tr != "hyphen-split" {
+	if !strings.HasPrefix(tr, "hyphen-split") {
 		return ""
 	}
 	// C06/line-restart-after-hyphen-join: after a hyphen-joined word the tokenizer starts a new line
@@ -851,6 +869,11 @@ func TestVerifC08(t *testing.T) {
 		nb := strings.ReplaceAll(string(d.data), " ", "\u00a0")
 		nb = strings.ReplaceAll(nb, "\"", "\u201c")
 		inputs = append(inputs, vinput{id: "mb_" + d.name, data: []byte(nb)})
+	}
+	// every long word split across a line break with a hyphen: the state of a pending join is
+	// alive at about every second byte, so it is alive at the buffer boundaries for most pads
+	for _, d := range vnamed("License/Apache-2.0/a.txt", "License/MIT/a.txt") {
+		inputs = append(inputs, vinput{id: "mbhy_" + d.name, data: vdenseHyphen(d.data, 3)})
 	}
 	nfrag, npad, nfail := 0, 0, 0
 	for ii, in := range inputs {
@@ -1276,13 +1299,14 @@ func TestVerifC12(t *testing.T) {
 	cnt := 0
 	for ti := 0; ti < nTrees; ti++ {
 		rr := r.fork(uint64(ti))
-		dir := filepath.Join(root, fmt.Sprintf("tree%d", ti), "corpus")
+		// the corpus directory's own name may end in "txt" (the walk root then passes the suffix filter)
+		dir := filepath.Join(root, fmt.Sprintf("tree%d", ti), []string{"corpus", "corpus.txt"}[ti%2])
 		type file struct {
 			rel  string
 			data []byte
 		}
 		var files []file
-		cats := []string{"License", "Header", "Extra"}
+		cats := []string{"License", "Header", "Extra", "L", "Hx"}
 		for k := 0; k < 3+rr.intn(8); k++ {
 			d := vcorpus[rr.intn(len(vcorpus))]
 			depth := []int{3, 3, 3, 3, 1, 2, 4, 5}[rr.intn(8)]
@@ -1293,7 +1317,7 @@ func TestVerifC12(t *testing.T) {
 			if depth == 3 && ti%3 == 0 && rr.chance(2, 3) {
 				name = []string{"license.txt", "a.txt", "v2.txt"}[rr.intn(3)]
 			}
-			seg := []string{cats[rr.intn(3)], fmt.Sprintf("%s-%d", d.name, k), "sub", "deeper"}
+			seg := []string{cats[rr.intn(len(cats))], fmt.Sprintf("%s-%d", d.name, k), "sub", "deeper"}
 			var rel string
 			switch depth {
 			case 1:
@@ -1331,16 +1355,34 @@ func TestVerifC12(t *testing.T) {
 			}
 		}
 		cwd, _ := os.Getwd()
-		spellings := map[string]string{"plain": dir, "trailing-sep": dir + string(os.PathSeparator), "dot-slash": "", "double-sep": strings.Replace(dir, "/corpus", "//corpus", 1), "dotdot": filepath.Join(dir, "..") + "/corpus"}
+		spellings := map[string]string{"plain": dir, "trailing-sep": dir + string(os.PathSeparator), "dot-slash": "", "double-sep": strings.Replace(dir, "/corpus", "//corpus", 1), "dotdot": filepath.Join(dir, "..") + "/" + filepath.Base(dir)}
 		if rel, err := filepath.Rel(cwd, dir); err == nil {
 			spellings["dot-slash"] = "./" + rel
 		} else {
 			delete(spellings, "dot-slash")
 		}
-		for sp, d := range spellings {
+		// "." and "./" name the directory itself once it is the working directory
+		spellings["cwd-dot"] = "."
+		spellings["cwd-dot-slash"] = "./"
+		spellings["cwd-parent"] = "../" + filepath.Base(dir)
+		var spNames []string
+		for sp := range spellings {
+			spNames = append(spNames, sp)
+		}
+		sort.Strings(spNames)
+		for _, sp := range spNames {
+			d := spellings[sp]
 			got := NewClassifier(0.8)
 			var lerr error
-			pan, msg := catch(func() { lerr = got.LoadLicenses(d) })
+			pan, msg := catch(func() {
+				if strings.HasPrefix(sp, "cwd-") {
+					if err := os.Chdir(dir); err != nil {
+						panic(err)
+					}
+					defer os.Chdir(cwd)
+				}
+				lerr = got.LoadLicenses(d)
+			})
 			what := ""
 			if pan {
 				what = fmt.Sprintf("LoadLicenses(%q) panicked: %s", d, msg)
